@@ -89,6 +89,20 @@ fn c07() {
     }
 }
 
+
+fn c39() {
+    use memvid_core::types::{SketchTrack, SketchVariant, generate_sketch, write_sketch_track, read_sketch_track};
+    let mut t = SketchTrack::new(SketchVariant::Small);
+    t.insert(generate_sketch(0, "alpha beta gamma delta", SketchVariant::Small, None));
+    t.insert(generate_sketch(5, "zebra yak xylophone walrus", SketchVariant::Small, None));
+    let mut cur = std::io::Cursor::new(Vec::new());
+    let (off, len, _) = write_sketch_track(&mut cur, &t).unwrap();
+    let back = read_sketch_track(&mut cur, off, len).unwrap();
+    let ids_in: Vec<u64> = t.iter().map(|e| e.frame_id).collect();
+    let ids_out: Vec<u64> = back.iter().map(|e| e.frame_id).collect();
+    println!("C39 sketch track ids written {:?} read back {:?}", ids_in, ids_out);
+}
+
 fn c32() {
     let dir = tempfile::tempdir().unwrap();
     let p = dir.path().join("a.mv2");
@@ -306,5 +320,5 @@ fn c08() {
 
 fn main() {
     let which = std::env::args().nth(1).unwrap_or_default();
-    match which.as_str() { "c05"=>c05(), "c26"=>c26(), "c20"=>c20(), "c20blob"=>c20blob(), "c07"=>c07(), "c32"=>c32(), "c11"=>c11(), "c17"=>c17(), "c08"=>c08(), "c29"=>c29(), "c14"=>c14(), "c09"=>c09(), "c18"=>c18(), "c23"=>c23(), "c16"=>c16(), "c40"=>c40(), "c24"=>c24(), "c15"=>c15(), "c22"=>c22(), _=>{ c05(); c26(); c20(); c11(); c17(); } }
+    match which.as_str() { "c05"=>c05(), "c26"=>c26(), "c20"=>c20(), "c20blob"=>c20blob(), "c07"=>c07(), "c39"=>c39(), "c32"=>c32(), "c11"=>c11(), "c17"=>c17(), "c08"=>c08(), "c29"=>c29(), "c14"=>c14(), "c09"=>c09(), "c18"=>c18(), "c23"=>c23(), "c16"=>c16(), "c40"=>c40(), "c24"=>c24(), "c15"=>c15(), "c22"=>c22(), _=>{ c05(); c26(); c20(); c11(); c17(); } }
 }
